@@ -73,6 +73,15 @@ Proof.
   rewrite Z.abs_mul, (Z.abs_eq (ElemF32.bit_len B)) in U by lia. nia.
 Qed.
 
+Theorem gen_large_work_precision_full p e B NB : 2 <= NB -> 2 <= B -> 1 <= p -> e <> 0 ->
+  let wp := large_work_precision_gen p e B NB in
+  wp = 2 * p + dlen NB (e * ElemF32.bit_len B) /\ 2 * p < wp /\
+  NB ^ (2 * p - 1) * (Z.abs e * ElemF32.bit_len B) < NB ^ (wp - 1).
+Proof.
+  intros H1 H2 H3 H4 wp. split; [exact (gen_large_work_precision p e B NB)|].
+  exact (gen_large_work_precision_covers p e B NB H1 H2 H3 H4).
+Qed.
+
 (* ------------------------------------------------------------------------------------------ *)
 (** * A. structure *)
 
